@@ -353,6 +353,9 @@ def model_atoms(m, space=None):
             opts = sorted((a for a in space.get(c, ()) if c != 'PERIPHERALS' or a[2] == 'DRUG'), key=repr)
             if opts:
                 own[c] = opts[idx[c] % len(opts)]
+                if c == 'TRANSITS' and flag % 3 == 2:
+                    # count of one feature of the space, depot of another one (may or may not be in the space)
+                    own[c] = ('TRANSITS', own[c][1], opts[(idx[c] + 1 + g('lag')) % len(opts)][2])
     return own
 
 
